@@ -708,7 +708,7 @@ def canary_avail(u: U):
 # closing the connector
 
 
-@unit("C07", "close_immediately", functions=[f"{MOD}:{CLS}._close_immediately"])
+@unit("C07", "close_immediately", functions=[f"{MOD}:{CLS}._close_immediately"], max_paths=120000)
 def close_immediately_unit(u: U):
     """_close_immediately for every shape of the pool (0..n idle connections under two keys, 0..2 in use, 0..3 queued
     waiters per key, each waiter future pending / already cancelled / already resolved - a request cancelled a moment ago
